@@ -33,3 +33,52 @@ Proof.
   rewrite Hlo, Hup in H. apply andb_true_iff in H. destruct H as [H1 H2].
   apply eqb_prop in H1. apply eqb_prop in H2. auto.
 Qed.
+
+(* ---------------------------------------------------------------- ranges
+   [x-y] in a set denotes the bytes c with x <= c <= y (manual: "in ascending
+   order"); a reversed range therefore denotes the empty set. *)
+Lemma bs_mem_add s x c : 0 <= x -> 0 <= c -> bs_mem (bs_add s x) c = bs_mem s c || (c =? x).
+Proof.
+  intros Hx Hc. unfold bs_mem, bs_add.
+  rewrite N.lor_spec, N.shiftl_1_l, N.pow2_bits_eqb. f_equal.
+  destruct (c =? x) eqn:E.
+  - apply Z.eqb_eq in E. subst. apply N.eqb_refl.
+  - apply N.eqb_neq. apply Z.eqb_neq in E. intros H. apply E.
+    rewrite <- (Z2N.id x), <- (Z2N.id c) by assumption. congruence.
+Qed.
+
+Lemma bs_mem_fold l : forall s c, 0 <= c -> (forall x, In x l -> 0 <= x) ->
+  bs_mem (fold_left bs_add l s) c = bs_mem s c || existsb (Z.eqb c) l.
+Proof.
+  induction l as [|x l IH]; intros s c Hc Hl; simpl.
+  - rewrite orb_false_r. reflexivity.
+  - rewrite IH by (auto; intros; apply Hl; right; assumption).
+    rewrite bs_mem_add by (auto; apply Hl; left; reflexivity).
+    rewrite orb_assoc. reflexivity.
+Qed.
+
+Theorem bs_range_spec a b c : 0 <= a -> 0 <= b -> 0 <= c ->
+  bs_mem (bs_range a b) c = (a <=? c) && (c <=? b).
+Proof.
+  intros Ha Hb Hc. unfold bs_range. destruct (b <? a) eqn:E.
+  - apply Z.ltb_lt in E. unfold bs_mem, bs_empty. rewrite N.bits_0.
+    symmetry. apply andb_false_iff.
+    destruct (Z_le_gt_dec a c); [right; apply Z.leb_gt; lia|left; apply Z.leb_gt; lia].
+  - apply Z.ltb_ge in E.
+    rewrite bs_mem_add by assumption. rewrite bs_mem_fold; auto.
+    + unfold bs_mem at 1, bs_empty. rewrite N.bits_0. simpl.
+      destruct (existsb (Z.eqb c) (map (fun k => a + Z.of_nat k) (seq 0 (Z.to_nat (b - a))))) eqn:Ex.
+      * apply existsb_exists in Ex. destruct Ex as (x & Hin & Hx). apply Z.eqb_eq in Hx. subst x.
+        apply in_map_iff in Hin. destruct Hin as (k & Hk & Hin). apply in_seq in Hin. simpl.
+        symmetry. apply andb_true_iff. split; apply Z.leb_le; lia.
+      * simpl. destruct (c =? b) eqn:Ecb.
+        -- apply Z.eqb_eq in Ecb. subst. symmetry. apply andb_true_iff. split; apply Z.leb_le; lia.
+        -- apply Z.eqb_neq in Ecb. symmetry. apply andb_false_iff.
+           destruct (Z_le_gt_dec a c) as [Hac|Hac]; [|left; apply Z.leb_gt; lia].
+           destruct (Z_le_gt_dec c b) as [Hcb|Hcb]; [|right; apply Z.leb_gt; lia].
+           exfalso. assert (Hin : existsb (Z.eqb c) (map (fun k => a + Z.of_nat k) (seq 0 (Z.to_nat (b - a)))) = true).
+           { apply existsb_exists. exists c. split; [|apply Z.eqb_refl].
+             apply in_map_iff. exists (Z.to_nat (c - a)). split; [lia|]. apply in_seq. lia. }
+           congruence.
+    + intros x Hin. apply in_map_iff in Hin. destruct Hin as (k & Hk & _). lia.
+Qed.
